@@ -22,6 +22,8 @@ slice of an expression), `slice_call` (backward slice of the arguments of the un
 `checked_datetime`, `objects` (the object layer: values are trees `JsonTree.PyObj`, exceptions `Py.ErrX`, raising operations
 inside expressions are bound in front of the statement in source order), `checked_index` (text records: `line[k]`, `float(s)`,
 `int(s)` raise), `slice_keep_all` / `slice_extra` (keep every statement but the call statement / append variables to the result).
+`real_from` (a dotted function name: from the first statement that calls it, float64 scalars are embedded exactly and the
+operations are those of the real layer).
 
 Anything else raises Untranslatable(function, lineno, reason): nothing is guessed and no statement is skipped silently.
 Every numpy / stdlib call accepted is in CALLS / METHODS / ATTRS below, with the prelude operation it maps to.
@@ -294,6 +296,16 @@ CALLS = {
         "body with x bound to a ; the constant",
     "datetime.datetime.strptime(s, fmt).timestamp() (checked_index; fmt with %z)": "Py.strptime_timestamp (ValueError; formats / offsets outside the text model: `other`)",
     "round(x) (x : float64, one argument)": "Soft64.roundHalfEven x (an int)",
+    "numpy.compress(numpy.not_equal(d, 0), d[, axis=-1]) ; scipy.stats.rankdata(x) (float64 arrays)":
+        "Py.compress_ne0 (the non-zero entries, in order) ; Py.rankdata (average ranks, exact halves: PairedTests.rankdata2 / 2)",
+    "b * x (b a bool array, x a float64 array)": "Py.bool_mul elementwise (True*x = x, False*x = 0)",
+    "numpy.sum(a[, axis=0]) (a a 1-D float64 array) ; a.sum() (int array)": "Py.np_sum_f64 = FloatSum.pairwiseSum 64 ; Py.sumInt",
+    "_, c = numpy.unique(r, return_counts=True)": "Py.unique_counts r (occurrences of the distinct values, ascending)",
+    "warnings.warn(…) as a statement": "nothing",
+    "'lit' in s ; s.replace('a', 'b') (s a str value, literals of more than one character)": "ReaderText.hasInfix ; ReaderText.replaceAll",
+    "d = {} ; d['k'] = v … ; return d": "one variable per key; the result is the tuple of the values, keys in the order of their first store",
+    "try: x = f(…) / except (E1, E2): msg = …; raise E(msg) (f a raising translated function)": "Py.reraise: E1 / E2 become E, other exceptions pass",
+    "TARGETS.real_from='numpy.sqrt'": "from the first statement that calls it, float64 scalars are embedded (Py.rOfRat) and operations are real",
     "a and f(x) / a or f(x) where the later operand can raise": "if a then <f x> else ok false (resp. if !a … else ok true): evaluated only when reached",
     "TARGETS.slice_keep_all / slice_extra": "every statement but the call statement is kept / further variables appended to the result",
     "[a, b, …] ; [f(x) for x in obj] ; numpy.array(obj) (objects)":
@@ -391,6 +403,8 @@ class Fn:
         self.objects = bool(spec.get("objects"))     # object layer: values are PyObj trees, exceptions are Py.ErrX
         self.err = "Py.ErrX" if self.objects else "Py.Err"
         self.has_continue = False
+        self.real_mode = False
+        self.dictrec_keys = {}
         self.pending = []               # raising operations of the statement being translated: (temporary, Except-valued code)
         self.dict_keys = None           # keys of the dict literal the function returns (as a tuple in key order)
         self.elem_depth = 0             # > 0 while translating under a condition that depends on one array element
@@ -617,6 +631,9 @@ class Fn:
         name = type(op).__name__
         if name == "Add" and {ka, kb} <= {"string", "str"} and "string" in (ka, kb):
             return Val(f"({self.to_string(a, node)} ++ {self.to_string(b, node)})", STRING)
+        if name == "Mult" and (ka, kb) in (("bool", "f64"), ("f64", "bool")):
+            bb, xx = (a, b) if ka == "bool" else (b, a)
+            return Val(f"(Py.bool_mul {bb.code} {xx.code})", Ty("f64", elem))      # True * x = x, False * x = 0 (x finite)
         if "q" in (ka, kb):
             # exact layer (TARGETS types a float64 array as `q`): no rounding, the hand model's arithmetic
             sym = {"Add": "+", "Sub": "-", "Mult": "*", "Div": "/"}.get(name)
@@ -748,6 +765,9 @@ class Fn:
                 r = r if name == "Is" else not r
                 return Val("true" if r else "false", BOOL, static=r)
             self.bad(node, "`is` is translated only against None")
+        if name in ("In", "NotIn") and b.ty.kind == "string" and a.ty.kind == "str" and a.is_static and len(a.static) > 1:
+            code = f"(ReaderText.hasInfix {str_lit(a.static)} {b.code})"        # 'lit' in s: substring test
+            return Val(code if name == "In" else f"(!{code})", BOOL)
         if name in ("In", "NotIn") and b.ty.kind == "string" and a.ty.kind == "str" and a.is_static and len(a.static) == 1:
             code = f"(List.contains {b.code} {str_lit(a.static)[2:-14].strip()})"
             return Val(code if name == "In" else f"(!{code})", BOOL)
@@ -857,6 +877,8 @@ class Fn:
         return Val("(" + ", ".join(v.code for v in vs) + ")", TUPLE(*[v.ty.with_elem(False) for v in vs]))
 
     def e_Dict(self, e, env):
+        if not e.keys and not self.objects:
+            return Val(None, Ty("dictrec"), static="dictrec")      # `{}`: filled by constant-key stores (block1), returned as a tuple
         # a dict literal with constant string keys is returned as the tuple of its values, keys listed in the header
         keys = [k.value if isinstance(k, ast.Constant) else None for k in e.keys]
         if any(not isinstance(k, str) for k in keys):
@@ -1149,6 +1171,9 @@ class Fn:
                 return Val(f"(List.map (fun x_ => Py.np_abs x_) {v.code})", v.ty)
             if v.ty.kind == "int":
                 return Val(f"(Int.ofNat (Int.natAbs {v.code}))", v.ty)
+            if v.ty.kind == "real" and not v.ty.elem:
+                self.uses_real = True
+                return Val(f"(Py.rabs {v.code})", v.ty)
             self.bad(e, f"abs of {v.ty}")
         if np_("nan_to_num") and len(args) == 1 and not kw:
             v = A(0)
@@ -1215,6 +1240,19 @@ class Fn:
             if v.ty.kind == "list" and v.ty.item.kind == "bool":
                 return Val(f"(Py.np_any {v.code})", BOOL)
             self.bad(e, f"any of {v.ty}")
+        if np_("compress") and len(args) == 2 and (not kw or (list(kw) == ["axis"] and isinstance(kw["axis"], ast.UnaryOp))) \
+                and isinstance(args[0], ast.Call) and dotted(args[0].func) in ("numpy.not_equal", "np.not_equal") \
+                and len(args[0].args) == 2 and ast.unparse(args[0].args[0]) == ast.unparse(args[1]) \
+                and isinstance(args[0].args[1], ast.Constant) and args[0].args[1].value == 0:
+            v = A(1)
+            if v.ty.kind == "list" and v.ty.item.kind == "f64":
+                return Val(f"(Py.compress_ne0 {v.code})", v.ty)     # numpy.compress(numpy.not_equal(d, 0), d): the non-zero entries
+            self.bad(e, f"compress of {v.ty}")
+        if fn == "scipy.stats.rankdata" and len(args) == 1 and not kw:
+            v = A(0)
+            if v.ty.kind == "list" and v.ty.item.kind == "f64":
+                return Val(f"(Py.rankdata {v.code})", v.ty)         # average ranks: exact halves
+            self.bad(e, f"rankdata of {v.ty}")
         if np_("unique") and len(args) == 1 and not kw:
             v = A(0)
             if v.ty.kind in ("idxtuple", "idxarr"):
@@ -1408,7 +1446,9 @@ class Fn:
             return Val(f"(Py.qsumAxis0 {v.code})", LIST(Q))
         if np_("copy") and len(args) == 1 and not kw:
             return A(0)         # a copy: values are immutable here
-        if np_("sum") and len(args) == 1 and not kw:
+        if np_("sum") and len(args) == 1 and (not kw or (list(kw) == ["axis"] and isinstance(kw["axis"], ast.Constant)
+                                                      and kw["axis"].value == 0 and A(0).ty.kind == "list"
+                                                      and A(0).ty.item.kind != "list")):
             v = A(0)
             return self.sum_of(v, e)
         if (np_("power") and len(args) == 2) or (np_("square") and len(args) == 1):
@@ -1467,6 +1507,11 @@ class Fn:
                 self.bad(e, f"ravel of {recv.ty}")
             if m == "sum" and not args and not kw:
                 return self.sum_of(recv, e)
+            if m == "replace" and len(args) == 2 and not kw and recv.ty.kind == "string":
+                a_, b_ = self.expr(args[0], env), self.expr(args[1], env)
+                if not (a_.is_static and isinstance(a_.static, str) and a_.static and b_.is_static and isinstance(b_.static, str)):
+                    self.bad(e, "str.replace with other than two literals (the first non-empty)")
+                return Val(f"(ReaderText.replaceAll {str_lit(a_.static)} {str_lit(b_.static)} {recv.code})", STRING)
             if m == "replace" and not args and list(kw) == ["tzinfo"] and dotted(kw["tzinfo"]) == "datetime.timezone.utc" \
                     and recv.ty.kind == "datetime":
                 return Val(f"(Py.Datetime.replaceUtc {recv.code})", DATETIME)
@@ -1509,7 +1554,11 @@ class Fn:
             return Val(f"(Py.esum {v.code})", EREAL)
         if v.ty.kind == "list" and v.ty.item.kind == "nat":
             return Val(f"(List.sum {v.code})", NAT)
-        self.bad(e, f"sum of {v.ty} (float64 numpy.sum is pairwise: not translated)")
+        if v.ty.kind == "list" and v.ty.item.kind == "f64" and not v.ty.elem:
+            return Val(f"(Py.np_sum_f64 {v.code})", F64)        # numpy.sum of a contiguous float64 array: the pairwise float sum
+        if v.ty.kind == "list" and v.ty.item.kind == "int":
+            return Val(f"(Py.sumInt {v.code})", INT)
+        self.bad(e, f"sum of {v.ty}")
 
     # ---------------------------------------------------------------- statements (continuation passing)
     def fresh(self, base):
@@ -1606,10 +1655,75 @@ class Fn:
             return go(env)      # docstring
         if isinstance(s, ast.Pass):
             return go(env)
+        if isinstance(s, ast.If) and not s.orelse and all(isinstance(b_, ast.Expr) and isinstance(b_.value, ast.Call)
+                                                          and dotted(b_.value.func) == "warnings.warn" for b_ in s.body):
+            save_, self.pending = self.pending, []
+            self.expr(s.test, env)          # the condition must be translatable and must not raise
+            if self.pending:
+                self.bad(s, "raising condition of an if that only warns")
+            self.pending = save_
+            self.notes.append(f"line {s.lineno}: `if {ast.unparse(s.test)}: warnings.warn(…)` has no effect on the result")
+            return go(env)
+        if isinstance(s, ast.Expr) and isinstance(s.value, ast.Call) and dotted(s.value.func) == "warnings.warn":
+            self.notes.append(f"line {s.lineno}: `warnings.warn(…)` has no effect on the result")
+            return go(env)
+        if self.spec.get("real_from") and not self.real_mode and any(
+                isinstance(n, ast.Call) and dotted(n.func) == self.spec["real_from"] for n in ast.walk(s)):
+            # declared switch of layer: from this statement on the float64 scalars are read as the real numbers they denote
+            self.real_mode = True
+            self.uses_real = True
+            env = dict(env)
+            for nm_, v_ in list(env.items()):
+                if isinstance(v_, Val) and v_.ty.kind == "f64" and not v_.ty.elem and v_.code is not None:
+                    env[nm_] = Val(f"(Py.rOfRat {v_.code} : α)", REAL)
+            self.notes.append(f"line {s.lineno}: from `{self.spec['real_from']}` on, the real layer: the float64 scalars computed so far are "
+                              f"embedded exactly (Py.rOfRat), the remaining operations are real operations")
+            go = lambda env2: self.block(rest, env2, k, ind)
+        if isinstance(s, ast.Assign) and len(s.targets) == 1 and isinstance(s.targets[0], ast.Tuple) \
+                and len(s.targets[0].elts) == 2 and all(isinstance(t_, ast.Name) for t_ in s.targets[0].elts) \
+                and s.targets[0].elts[0].id == "_" and isinstance(s.value, ast.Call) \
+                and dotted(s.value.func) in ("numpy.unique", "np.unique") and len(s.value.args) == 1 \
+                and [k_.arg for k_ in s.value.keywords] == ["return_counts"] \
+                and isinstance(s.value.keywords[0].value, ast.Constant) and s.value.keywords[0].value.value is True:
+            v = self.expr(s.value.args[0], env)
+            if not (v.ty.kind == "list" and v.ty.item.kind == "f64"):
+                self.bad(s, f"unique counts of {v.ty}")
+            # _, c = numpy.unique(r, return_counts=True): the numbers of occurrences of the distinct values, in ascending order of value
+            return self.bind(s.targets[0].elts[1].id, Val(f"(Py.unique_counts {v.code})", LIST(INT)), env, go, pad, s)
         if isinstance(s, ast.Continue):
             if not self.has_continue:
                 self.bad(s, "continue outside a loop body that is the definition (TARGETS.for_body)")
             return pad + self.ret("none")       # this pass of the loop produces nothing
+        if isinstance(s, ast.Assign) and len(s.targets) == 1 and isinstance(s.targets[0], ast.Subscript) \
+                and isinstance(s.targets[0].value, ast.Name) and s.targets[0].value.id in env \
+                and env[s.targets[0].value.id].ty.kind == "dictrec" and isinstance(s.targets[0].slice, ast.Constant) \
+                and isinstance(s.targets[0].slice.value, str):
+            # d['k'] = v on a dict that started as `{}`: one variable per key, keys in the order of their first store
+            dn, key_ = s.targets[0].value.id, s.targets[0].slice.value
+            v = self.expr(s.value, env)
+            if v.is_static or v.ty.kind not in ("int", "f64", "string", "bool", "real", "nat"):
+                self.bad(s, f"store of {v.ty} into a dict built by stores")
+            keys_ = self.dictrec_keys.setdefault(dn, [])
+            if key_ not in keys_:
+                keys_.append(key_)
+            env2 = dict(env)
+            nm_ = mangle(f"{dn}[{key_!r}]")
+            env2[f"{dn}[{key_!r}]"] = Val(nm_, v.ty.with_elem(False))
+            return f"{pad}let {nm_} := {v.code};\n" + self.block(rest, env2, k, ind)
+        if isinstance(s, ast.Return) and isinstance(s.value, ast.Name) and s.value.id in env \
+                and env[s.value.id].ty.kind == "dictrec":
+            dn = s.value.id
+            keys_ = self.dictrec_keys.get(dn, [])
+            if not keys_:
+                self.bad(s, "an empty dict is returned")
+            vs = [env[f"{dn}[{k_!r}]"] for k_ in keys_]
+            self.notes.append(f"line {s.lineno}: dict result as tuple in key order {keys_}")
+            self.dict_keys = keys_
+            rt = TUPLE(*[v_.ty for v_ in vs]) if len(vs) > 1 else vs[0].ty
+            if self.ret_ty is not None and self.ret_ty != rt:
+                self.bad(s, f"return types differ: {self.ret_ty} and {rt}")
+            self.ret_ty = rt
+            return pad + self.ret("(" + ", ".join(v_.code for v_ in vs) + ")")
         if isinstance(s, ast.Return):
             if s.value is None:
                 self.bad(s, "bare return")
@@ -1940,6 +2054,40 @@ class Fn:
                 self.pending = save
             v = self.raising(f"(Py.tryRaise {term} {self.err}.{kind})", PYOBJ)
             return self.bind(s.body[0].targets[0].id, v, env, go, pad, s)
+        if isinstance(s, ast.Try) and not self.objects and not s.orelse and not s.finalbody and len(s.handlers) == 1 \
+                and len(s.body) == 1 and isinstance(s.body[0], ast.Assign) and len(s.body[0].targets) == 1 \
+                and isinstance(s.body[0].targets[0], ast.Name) and isinstance(s.body[0].value, ast.Call) \
+                and s.handlers[0].type is not None and s.handlers[0].body \
+                and isinstance(s.handlers[0].body[-1], ast.Raise) and s.handlers[0].body[-1].exc is not None \
+                and all(isinstance(h_, ast.Assign) and len(h_.targets) == 1 and isinstance(h_.targets[0], ast.Name)
+                        for h_ in s.handlers[0].body[:-1]):
+            # try: x = f(…) / except (E1, E2): msg = …; raise E(msg) — f a translated raising function: its exceptions of the
+            # named classes become E; the handler's assignments only build the message
+            hty = s.handlers[0].type
+            names_ = [dotted(t_) for t_ in (hty.elts if isinstance(hty, ast.Tuple) else [hty])]
+            kinds = {"ValueError": "valueError", "IndexError": "indexError", "AssertionError": "assertionError"}
+            frm = [kinds[n_] for n_ in names_ if n_ in kinds]
+            rest_names = [n_ for n_ in names_ if n_ not in kinds]
+            if any(n_ not in ("TypeError", "KeyError", "AttributeError") for n_ in rest_names):
+                self.bad(s, f"handler of {rest_names}")
+            msg_names = {h_.targets[0].id for h_ in s.handlers[0].body[:-1]}
+            ex_ = s.handlers[0].body[-1].exc
+            exc = dotted(ex_.func) if isinstance(ex_, ast.Call) else dotted(ex_)
+            to = kinds.get(exc, "other")
+            cal = self.find_callee(dotted(s.body[0].value.func))
+            if cal is None or not (self.tr.results.get(cal["lean"]) or {}).get("raises", False) or not self.raises:
+                self.bad(s, "try around something other than a call of a raising translated function")
+            vs = [self.expr(a_, env) for a_ in s.body[0].value.args]
+            kw_ = {k_.arg: k_.value for k_ in s.body[0].value.keywords}
+            v = self.tr.call(self, cal, vs, kw_, s.body[0].value, env, allow_raise=True)
+            if rest_names:
+                self.notes.append(f"line {s.lineno}: {', '.join(rest_names)} cannot come out of `{cal['func']}` as translated "
+                                  f"(its exceptions are {self.err}); only {[n_ for n_ in names_ if n_ in kinds]} is re-raised")
+            if msg_names & set(env):
+                self.bad(s, "the handler assigns a variable of the function")
+            lst = "[" + ", ".join(f"{self.err}.{k_}" for k_ in frm) + "]"
+            v2 = self.raising(f"(Py.reraise {v.code} {lst} {self.err}.{to})", v.ty.with_elem(False))
+            return self.bind(s.body[0].targets[0].id, v2, env, go, pad, s)
         if isinstance(s, ast.With):
             for it in s.items:
                 if not (isinstance(it.context_expr, ast.Call) and dotted(it.context_expr.func) in ("numpy.errstate", "np.errstate")
@@ -2249,6 +2397,11 @@ TARGETS = [
                       "observed_catalog.event_count": ("n_obs", NAT),
                       "gridded_forecast1.event_count": ("n1", F64), "gridded_forecast2.event_count": ("n2", F64)},
          opaque={"numpy.log": dict(lean="np_log", sig="Rat → Rat", args=[F64], ret=F64)}),
+    # the Wilcoxon signed-rank core: float64 differences; ranks, rank sums (numpy.sum = pairwise float sum), counts and the tie
+    # correction in float64 / int64 (Soft64 layer); from `numpy.sqrt(se / 24)` on the real layer (TARGETS.real_from)
+    dict(file="csep/core/poisson_evaluations.py", func="_w_test_ndarray", lean="w_test_ndarray", prop="C08", also=[],
+         params=dict(x=LIST(F64), m=F64), real_from="numpy.sqrt",
+         opaque={"scipy.stats.distributions.norm.sf": dict(lean="norm_sf", sig="α → α", args=[REAL], ret=REAL)}),
     # the binary T-test core: `catalog` is read only through `catalog.spatial_magnitude_counts()` (a count array parameter)
     dict(file="csep/core/binomial_evaluations.py", func="matrix_binary_t_test", lean="matrix_binary_t_test", prop="C08",
          also=[], params=dict(target_event_rates1=LIST(REAL), target_event_rates2=LIST(REAL), n_obs=REAL, n_f1=REAL, n_f2=REAL,
@@ -2361,6 +2514,9 @@ TARGETS = [
     dict(file="csep/utils/readers.py", func="jma_csv", lean="jma_record", prop="C19", also=[], label="jma_csv[record]",
          for_body="(id, line)", free_params=["is_first_event"], slice_call="events.append", slice_keep_all=True,
          checked_index=True, params=dict(id=INT, line=LIST(STRING), is_first_event=BOOL)),
+    # C19: the date / time strings of an NDK hypocenter line -> calendar fields (with the ":60.0" rewrite and the added minute)
+    dict(file="csep/utils/readers.py", func="_parse_datetime_to_zmap", lean="parse_datetime_to_zmap", prop="C19", also=[],
+         params=dict(date=STRING, time=STRING)),
     # C19: per-record body of ingv_horus: one row of the structured array (int32 / float64 fields), the second-60 carries
     dict(file="csep/utils/readers.py", func="ingv_horus", lean="horus_record", prop="C19", also=[], label="ingv_horus[record]",
          for_body="(n, line)", slice_call="out.append", checked_datetime=True,
